@@ -69,7 +69,7 @@ def write_par(path, M, g=3, nlev=2):
 
 
 def make_sim(root, simname, restarts, M=(3, 4, 3), ghost=2, chunks=None, layout=("onefile", "ungrouped"),
-             nlev=1, variables=None, xyz=False, m0=False, checkpoints=None, restart_numbers=None):
+             nlev=1, variables=None, xyz=False, m0=False, checkpoints=None, restart_numbers=None, active_link=False):
     """restarts: list of dict(lo, hi, every) (iterations = multiples of every in lo..hi).
 
     Returns {"its": {restart_number: {rl: [its]}}, "files": [...]}"""
@@ -120,4 +120,8 @@ def make_sim(root, simname, restarts, M=(3, 4, 3), ghost=2, chunks=None, layout=
             h.close()
         for cit in (checkpoints or {}).get(rn, []):
             open(os.path.join(d, f"checkpoint.chkpt.it_{cit}.h5"), "w").close()
+    if active_link and restarts:
+        # simfactory's link to the restart that is (was last) running: not a restart of its own
+        last = restart_numbers[-1] if restart_numbers else len(restarts) - 1
+        os.symlink(f"output-{last:04d}", os.path.join(root, simname, f"output-{last:04d}-active"))
     return written
